@@ -12,6 +12,9 @@ func init() {
 		if err := runFamilies(e, "C06", "extend", famExtend, b, per, 6, nil, nil); err != nil {
 			return err
 		}
+		if err := runRecCustoms(e, b, per); err != nil {
+			return err
+		}
 		e.rep.Rule += "; plus useUnderlyingTypeMethods: an extend function between the underlying types of named basics (optionally with a context parameter, fallible) used for the named pair at field, element, map value and pointer positions; a method lacking the context must be rejected"
 		if err := runFamilies(e, "C06", "underlying", famUnderlying, b, per, 6, nil, nil); err != nil {
 			return err
